@@ -1132,6 +1132,14 @@ static std::ostream& print_double(std::ostream& os, double value)
     return os;
 }
 
+/** Prints the optional "; runs" part of an SMC bound (-1 encodes its absence). */
+static std::ostream& print_runs(std::ostream& os, bool old, const expression_t& runs)
+{
+    if (runs.get_kind() == CONSTANT && runs.get_type().is_integer() && runs.get_value() == -1)
+        return os;
+    return runs.print(os << "; ", old);
+}
+
 int get_precedence_or_default(const expression_t& expr)
 {
     try {
@@ -1149,29 +1157,38 @@ std::ostream& expression_t::print(std::ostream& os, bool old) const
     int nb;
 
     switch (data->kind) {
+    // Pr[..] and E[..] nodes are built as {runs, bound kind or bounded expression, bound, ...}, see ExpressionBuilder
     case PROBA_MIN_BOX: flag = true; [[fallthrough]];
-    case PROBA_MIN_DIAMOND:
+    case PROBA_MIN_DIAMOND:  // {runs, bound kind, bound, predicate, probability}
         os << "Pr[";
-        print_bound_type(os, get(0));
-        get(1).print(os, old);
-        os << (flag ? "]([] " : "](<> ");
-        get(2).print(os, old) << ") >= " << get(3).get_double_value();
+        print_bound_type(os, get(1));
+        get(2).print(os, old);
+        print_runs(os, old, get(0)) << (flag ? "]([] " : "](<> ");
+        get(3).print(os, old) << ") >= ";
+        print_double(os, get(4).get_double_value());
         break;
 
     case PROBA_BOX: flag = true; [[fallthrough]];
-    case PROBA_DIAMOND:
+    case PROBA_DIAMOND:  // {runs, bound kind, bound, predicate, until condition (true if there is none)}
         os << "Pr[";
-        print_bound_type(os, get(0));
-        get(1).print(os, old) << (flag ? "]([] " : "](<> ");
-        get(2).print(os, old) << ")";
+        print_bound_type(os, get(1));
+        get(2).print(os, old);
+        print_runs(os, old, get(0));
+        if (flag || (get(4).get_kind() == CONSTANT && get(4).is_true())) {
+            os << (flag ? "]([] " : "](<> ");
+            get(3).print(os, old) << ")";
+        } else {
+            get(3).print(os << "](", old) << " U ";
+            get(4).print(os, old) << ")";
+        }
         break;
 
-    case PROBA_EXP:
+    case PROBA_EXP:  // {runs, bound kind, bound, aggregation (0 min, 1 max), expression}
         os << "E[";
-        print_bound_type(os, get(0));
-        get(1).print(os, old) << "; ";
-        get(2).print(os, old) << "] (" << (get(4).get_value() ? "max: " : "min: ");
-        get(3).print(os, old) << ")";
+        print_bound_type(os, get(1));
+        get(2).print(os, old);
+        print_runs(os, old, get(0)) << "] (" << (get(3).get_value() ? "max: " : "min: ");
+        get(4).print(os, old) << ")";
         break;
 
     case PROBA_CMP:
